@@ -14,7 +14,7 @@ RULE = (
     "for every generated stream (3-10 records over 1-3 descriptors incl. nested and grouped records, 300-6000 bytes) the "
     "fault space is enumerated completely: (cut) EVERY byte offset 0..len of the raw stream read through a buffered "
     "BytesIO, a raw non-peekable reader returning short reads, and RecordReader(fileobj=); (gzcut) EVERY byte offset of "
-    "the sync-flushed gzip form read through RecordReader(fileobj=); (wfault) EVERY write-call index of the writer's file "
+    "the sync-flushed gzip form (built by the harness) and of the gzip file the library itself writes when flushed after every record, read through RecordReader(fileobj=); (wfault) EVERY write-call index of the writer's file "
     "object x {raise, short write + raise, silent short write + crash}, then reading what reached the file object; (wcont) "
     "EVERY frame whose write fails cleanly (the length-prefix call raises, nothing reaches the file) while the application "
     "carries on writing: the reader must yield an unmodified prefix of the records whose write() returned, at least up to the "
@@ -52,7 +52,7 @@ def generate(ctx):
     for i in range(nstreams):
         s = subseed("c04", ctx.seed, "stream", i)
         for kind, sub in (("cut", "buffered"), ("cut", "raw"), ("cut", "reader"), ("gzcut", "reader"), ("wfault", "raise"), ("wfault", "short"), ("wfault", "silent-short"),
-                          ("wcont", "raise")):
+                          ("wcont", "raise"), ("gzlib", "reader")):
             if ctx.mine(idx):
                 yield {"k": kind, "sub": sub, "s": s, "i": i}
             idx += 1
@@ -225,6 +225,10 @@ def execute(ctx, case):
         check_prefix(ctx, case, "complete gzip form", yielded, exc, _got_expected(written, yielded, len(written)), True, {"gzip_len": len(gz)})
         return
 
+    if k == "gzlib":
+        run_library_gzip_cuts(ctx, case, records, written)
+        return
+
     if k == "wcont":
         run_continue_after_fault(ctx, case, records, written, data, tee, frames)
         return
@@ -268,6 +272,54 @@ def execute(ctx, case):
             check_prefix(ctx, case, "write fault %s at call %d, read via %s" % (sub, idx, rsub), yielded, exc, _got_expected(written, yielded, cnt), boundary,
                          {"call": idx, "mode": sub, "bytes_on_disk": len(ondisk), "clean_len": len(data)})
         ctx.nontrivial("wfault", sub, case["s"], idx)
+
+
+def run_library_gzip_cuts(ctx, case, records, written):
+    """The gzip file is produced by the library itself (RecordWriter on a .gz path, flushed after every record as the
+    archiving writers do), then cut at every byte offset.  Expected: the records whose frames lie completely inside the
+    independently decompressed prefix of the cut file."""
+    import os
+    import tempfile
+
+    from flow.record import RecordWriter
+
+    d = tempfile.mkdtemp(prefix="frv-c04-", dir=os.environ.get("VERIF_TMP", "/var/tmp"))
+    try:
+        path = os.path.join(d, "s.records.gz")
+        w = RecordWriter(path)
+        for r in records:
+            w.write(r)
+            w.flush()
+        w.close()
+        with open(path, "rb") as f:
+            gz = f.read()
+    finally:
+        import shutil
+
+        shutil.rmtree(d, ignore_errors=True)
+    full = faultio.gzip_decodable_prefix(gz)
+    try:
+        dec_records, rec_ends, _ = refcodec.decode_prefix(full)
+    except Exception as e:  # noqa: BLE001
+        ctx.violation(None, "gzip file written by the library does not decompress to a valid stream", detail={"error": repr(e)[:300]})
+        return
+    if len(dec_records) != len(records):
+        ctx.violation(None, "gzip file written by the library holds %d record frames, %d were written" % (len(dec_records), len(records)), detail={})
+        return
+    for n in range(len(gz) + 1):
+        cut = gz[:n]
+        plain = faultio.gzip_decodable_prefix(cut)
+        if full[: len(plain)] != plain:
+            ctx.note_add("gzip_prefix_model_mismatch")
+            continue
+        cnt = sum(1 for e in rec_ends if e <= len(plain))
+        yielded, exc = read_all(make_reader_factory("reader", cut))
+        check_prefix(ctx, case, "library-written gzip file cut at byte %d" % n, yielded, exc, _got_expected(written, yielded, cnt), False,
+                     {"offset": n, "gzip_len": len(gz), "decodable_plain_bytes": len(plain)})
+        ctx.ev()
+        ctx.event("gzlib_cut")
+        ctx.event("gzlib_raises" if exc else "gzlib_ends")
+        ctx.nontrivial("gzlib", case["s"], n)
 
 
 def run_continue_after_fault(ctx, case, records, written, data, tee, frames):
